@@ -722,3 +722,59 @@ Section PaddingCheck.
         apply Nat.ltb_lt. exact (padding_argmax le ninf C V m rc Hwf Hpad Hexv Ham).
   Qed.
 End PaddingCheck.
+
+(* ---------- bridge to property C01 ----------
+   C01_score_generic_cell (coq/score) states every cell of the score matrix of any backend as
+     nth c (nth r mat []) zero =
+       fold_left add (map (fun j => nth (nth (c*R + r + j) s (K-1)) (nth j pssm []) zero) (seq 0 M)) zero.
+   That formula is exactly the hypothesis "cell = defined score" of the padding theorem
+   (wildcard K-1, default cell value zero); the groups are not linked at the Coq level. *)
+Section BridgeC01.
+  Context {T : Type}.
+  Variable add : T -> T -> T.
+  Variable zero : T.
+
+  Lemma map_enum_seq {A B} (g : nat -> A -> B) (d : A) : forall (l : list A) (a : nat),
+    map (fun jr => g (fst jr) (snd jr)) (combine (seq a (length l)) l) =
+    map (fun j => g j (nth (j - a) l d)) (seq a (length l)).
+  Proof.
+    induction l as [|x l IH]; intros a; cbn [length seq combine map]; auto. f_equal.
+    - rewrite Nat.sub_diag. reflexivity.
+    - rewrite IH. apply map_ext_in. intros j Hj. apply in_seq in Hj.
+      replace (j - a) with (S (j - S a)) by lia. reflexivity.
+  Qed.
+
+  Lemma terms_seq_form (wild : nat) (dflt : T) (pssm : list (list T)) (s : list nat) (i : nat) :
+    terms wild dflt pssm s i =
+    map (fun j => nth (nth (i + j) s wild) (nth j pssm []) dflt) (seq 0 (length pssm)).
+  Proof.
+    unfold terms, enumerate, sym.
+    rewrite (map_enum_seq (fun j row => nth (nth (i + j) s wild) row dflt) [] pssm 0).
+    apply map_ext. intros j. rewrite Nat.sub_0_r. reflexivity.
+  Qed.
+
+  Theorem cells_from_C01_shape (C K : nat) (m : @matrix T) (pssm : list (list T)) (s : list nat) :
+    wf C m ->
+    (forall r c, r < length m -> c < C ->
+       nth c (nth r m []) zero =
+       fold_left add (map (fun j => nth (nth (c * length m + r + j) s (K - 1)) (nth j pssm []) zero)
+                          (seq 0 (length pssm))) zero) ->
+    forall i, i < length m * C ->
+      index_usize m i = Ok (score_def add zero (K - 1) zero pssm s i).
+  Proof.
+    intros Hwf Hcell i Hi. unfold index_usize.
+    destruct (length m) as [|R'] eqn:ER; [lia|]. set (R := S R') in *.
+    assert (Hr : i mod R < R) by (apply Nat.mod_upper_bound; unfold R; lia).
+    assert (Hc : i / R < C) by (apply Nat.div_lt_upper_bound; unfold R; lia).
+    assert (Hd : i = (i / R) * R + i mod R) by (rewrite Nat.mul_comm; apply Nat.div_mod; unfold R; lia).
+    unfold get.
+    destruct (nth_error m (i mod R)) as [row|] eqn:Erow; [|apply nth_error_None in Erow; lia].
+    assert (Hlr : length row = C).
+    { unfold wf in Hwf. rewrite Forall_forall in Hwf. apply Hwf. eapply nth_error_In; eauto. }
+    destruct (nth_error row (i / R)) as [x|] eqn:Ex; [|apply nth_error_None in Ex; lia].
+    f_equal. unfold score_def. rewrite terms_seq_form.
+    assert (Hx : x = nth (i / R) (nth (i mod R) m []) zero).
+    { rewrite (nth_error_nth _ _ [] Erow). symmetry. apply nth_error_nth. exact Ex. }
+    rewrite Hx, (Hcell (i mod R) (i / R)) by (rewrite ?ER; auto). fold R. rewrite <- Hd. reflexivity.
+  Qed.
+End BridgeC01.
